@@ -153,7 +153,10 @@ const c12N = 5
 type c12World struct {
 	m      [c12N]*cors.Middleware
 	inputs [c12N]cors.Config // the values passed to NewMiddleware (slices shared with the caller)
-	lits   [c12N]CfgLit
+	// kept: one more Config value per middleware, equal to its configuration, that the caller keeps, never edits and
+	// hands to Reconfigure again and again (first when the world is built)
+	kept [c12N]cors.Config
+	lits [c12N]CfgLit
 }
 
 func c12NewWorld() (*c12World, error) {
@@ -180,6 +183,12 @@ func c12NewWorld() (*c12World, error) {
 	m3.SetDebug(true)
 	w.m[2] = m3
 	w.m[1].SetDebug(true)
+	for i := range w.m {
+		w.kept[i] = w.lits[i].Config()
+		if err := w.m[i].Reconfigure(&w.kept[i]); err != nil {
+			return nil, err
+		}
+	}
 	return w, nil
 }
 
@@ -245,7 +254,7 @@ func c12Ops() []string {
 			}
 		}
 		ops = append(ops, fmt.Sprintf("scribble-input:m%d", mi), fmt.Sprintf("config-scribble:m%d", mi), fmt.Sprintf("reconfigure-scribble:m%d", mi), fmt.Sprintf("roundtrip-scribble:m%d", mi),
-			fmt.Sprintf("edit-resubmit:m%d", mi), fmt.Sprintf("detour:m%d", mi), fmt.Sprintf("wrap-while-passthrough:m%d", mi), fmt.Sprintf("rejected-extension:m%d", mi))
+			fmt.Sprintf("edit-resubmit:m%d", mi), fmt.Sprintf("detour:m%d", mi), fmt.Sprintf("wrap-while-passthrough:m%d", mi), fmt.Sprintf("rejected-extension:m%d", mi), fmt.Sprintf("resubmit-kept:m%d", mi))
 	}
 	return ops
 }
@@ -256,7 +265,7 @@ func c12ReducedOps(thorough bool) []string {
 	var ops []string
 	for mi := 0; mi < c12N; mi++ {
 		ops = append(ops, fmt.Sprintf("serve:m%d:r2:scribble", mi), fmt.Sprintf("serve:m%d:r1:scribble", mi),
-			fmt.Sprintf("scribble-input:m%d", mi), fmt.Sprintf("config-scribble:m%d", mi), fmt.Sprintf("reconfigure-scribble:m%d", mi), fmt.Sprintf("edit-resubmit:m%d", mi), fmt.Sprintf("detour:m%d", mi), fmt.Sprintf("rejected-extension:m%d", mi))
+			fmt.Sprintf("scribble-input:m%d", mi), fmt.Sprintf("config-scribble:m%d", mi), fmt.Sprintf("reconfigure-scribble:m%d", mi), fmt.Sprintf("edit-resubmit:m%d", mi), fmt.Sprintf("detour:m%d", mi), fmt.Sprintf("rejected-extension:m%d", mi), fmt.Sprintf("resubmit-kept:m%d", mi))
 		if thorough {
 			ops = append(ops, fmt.Sprintf("serve:m%d:r7:scribble-preset", mi), fmt.Sprintf("roundtrip-scribble:m%d", mi), fmt.Sprintf("wrap-while-passthrough:m%d", mi))
 		}
@@ -284,6 +293,12 @@ func (w *c12World) apply(op string) error {
 		// the caller owns the response header map after the call for non-preflight requests
 	case "scribble-input":
 		scribbleConfig(&w.inputs[mi])
+	case "resubmit-kept":
+		// the caller hands over, once more, the very Config value it handed over when the world was built and has not
+		// touched since
+		if err := w.m[mi].Reconfigure(&w.kept[mi]); err != nil {
+			return fmt.Errorf("the Config value that was accepted when the world was built is rejected when handed over again, unchanged: %v", err)
+		}
 	case "rejected-extension":
 		// Reconfigure is called with the current configuration extended - more origins after the current ones (an
 		// attacker's, near misses of the probes' origins, a wildcard over them), one more name at the end of every other
